@@ -38,11 +38,27 @@ import (
 
 // hop is one step of a history.
 type hop struct {
-	Op string  `json:"op"`          // ins | rem | commit
+	Op string  `json:"op"`          // ins | rem | commit | get | iter (the last two only in the fault route)
 	K  *string `json:"k,omitempty"` // hex; "" is the empty key; absent for commit
 	V  *string `json:"v,omitempty"` // hex; "" is the empty value; absent for rem/commit
+	N  int     `json:"n,omitempty"` // iter: number of Next calls after Seek(K)
+	// Fault is an injected fault under which the operation is attempted first: "db@i" = the
+	// (i+1)-th NodeDB.GetNode of the operation fails once with a transient error, "ctx@i" = the
+	// context reports cancellation after ctx.Err() has been consulted i times. If the operation
+	// returns the injected error it must have left the tree unchanged and is then retried without
+	// fault; if the fault is not reached the operation simply succeeds.
+	Fault string `json:"fault,omitempty"`
+	// Check: compare the full contents with the model right after the failed attempt.
+	Check bool `json:"check_contents_after_failure,omitempty"`
 
 	k, v []byte
+	fk   string // "", "db", "ctx"
+	fat  int
+}
+
+func (h *hop) setFault(kind string, at int, check bool) {
+	h.fk, h.fat, h.Check = kind, at, check
+	h.Fault = fmt.Sprintf("%s@%d", kind, at)
 }
 
 // capacity is a cache capacity choice. The classes:
@@ -214,8 +230,10 @@ func main() {
 	run = evid.Start("C02", "exploration")
 	run.Rule = "case i: content set S (0..48 keys, alphabet {00,01,7f,80,ff,a,b}, lengths 0..6, 60% of keys derived from existing keys as extension/prefix/sibling/bit flip; values 0..3 bytes, sometimes 40..800) from PRNG(seed,i); " +
 		">= 9 routes per set (sorted/reverse/shuffled inserts, churn histories with extra keys removed later, overwrites, remove+reinsert, no-op rewrites and removes; commit once/every op/every k/random; nop, badger, pathbadger in-memory; capacities default, unlimited, fit classes (nodes=2D+4 / 4D+8, values = 4x / 8x largest leaf), tiny = node capacity below 2D+4: (1,1),(2,16),(1,0); (0,1); reopen with NewWithRoot at every commit; write-log replay; sampled checkpoint create->restore). " +
+		"plus one fault-injection route per set (churn history on nop/badger/pathbadger with default, unlimited or node-only small cache, reopened at every commit; ~35% of the inserts/removes and added Get/iterator probes are attempted under an injected transient NodeDB.GetNode error or a context cancelled after i Err() checks, i from the PRNG; an operation that returns the injected error must leave the contents unchanged (full iteration) and is retried; every commit is compared with the reference root). " +
 		"non-trivial = S has a prefix-key pair AND some route history contained a removal that collapsed an internal node (classified by the reference trie builder)."
 	run.Assume("reference hasher (engine/mkvslab/refhash.go) is the canonical compressed Patricia trie built top-down from node.go's hash definitions; SHA-512/256 from Go's crypto/sha512")
+	run.Assume("fault injection: a NodeDB wrapper fails one GetNode call with a transient error, or ctx.Err() reports cancellation after a PRNG-chosen number of checks; both are treated as legitimate transient failures after which the caller may retry")
 	run.Assume("nop node database is used only with the default/unlimited cache (it cannot re-fetch evicted nodes) and without reopen")
 	run.Assume("values are non-nil, keys are non-nil byte slices (the empty key is []byte{}); badger/pathbadger run in MemoryOnly mode, commits are a linear chain version+1")
 
@@ -458,6 +476,16 @@ func planRoutes(rng *rand.Rand, set *lab.Model) []routeSpec {
 	// A third database route that alternates its shape with the case PRNG.
 	third := mk("db-c", dbBackends[rng.IntN(2)], []string{"shuffle", "churn", "sorted"}[rng.IntN(3)], "every", pickCap(true))
 	routes = append(routes, third)
+	// Fault-injection route: churn history on a tree that is reopened at every commit (so nodes
+	// have to be fetched) with operations attempted under an injected transient NodeDB read error
+	// or a context cancelled mid-descent first, then retried. Only capacity classes outside the
+	// known-finding families are used here.
+	faultBackend := []string{lab.BackendNop, lab.BackendBadger, lab.BackendBadger, lab.BackendPathBadger, lab.BackendPathBadger}[rng.IntN(5)]
+	faultCap := []capacity{capacities[0], capacities[1], capacities[4]}[rng.IntN(3)]
+	if faultBackend == lab.BackendNop {
+		faultCap = capacities[rng.IntN(2)]
+	}
+	routes = append(routes, mk("fault-retry", faultBackend, "churn", []string{"every", "k3", "k5", "random"}[rng.IntN(4)], faultCap))
 	for i := range routes {
 		r := &routes[i]
 		if r.Backend != lab.BackendNop {
@@ -473,10 +501,55 @@ func planRoutes(rng *rand.Rand, set *lab.Model) []routeSpec {
 			r.Reopen = true
 		}
 		r.History = genHistory(rng, set, r.Style, r.Batching)
+		if r.Name == "fault-retry" {
+			r.Reopen = r.Backend != lab.BackendNop && rng.IntN(4) > 0
+			r.History = sprinkleFaults(rng, r.History, r.Backend)
+		}
 		r.cap, r.WorkingSetNodes = fitCapacity(r.cap, r.History)
 		r.CapClass, r.CapNodes, r.CapValues = r.cap.class, r.cap.nodes, r.cap.vals
 	}
 	return routes
+}
+
+// sprinkleFaults annotates about a third of the inserts/removes of a history with a fault and
+// adds Get / iterator probes (most of them under a fault too). Everything is PRNG-determined.
+func sprinkleFaults(rng *rand.Rand, hist []hop, backend string) []hop {
+	kind := func() string {
+		if backend == lab.BackendNop || rng.IntN(5) < 2 {
+			return "ctx"
+		}
+		return "db"
+	}
+	var keys [][]byte
+	var out []hop
+	for _, h := range hist {
+		if h.Op == "ins" || h.Op == "rem" {
+			keys = append(keys, h.k)
+			if rng.IntN(100) < 35 {
+				h.setFault(kind(), rng.IntN(7), true)
+			}
+		}
+		out = append(out, h)
+		if len(keys) == 0 || rng.IntN(100) >= 18 {
+			continue
+		}
+		k := keys[rng.IntN(len(keys))]
+		if rng.IntN(3) == 0 {
+			k = lab.GenKeyNear(rng, k)
+		}
+		hk := lab.Hex(k)
+		p := hop{Op: "get", k: k, K: &hk}
+		if backend != lab.BackendNop && rng.IntN(4) == 0 {
+			p.Op, p.N = "iter", rng.IntN(8)
+			if rng.IntN(4) > 0 {
+				p.setFault("db", rng.IntN(7), true)
+			}
+		} else if rng.IntN(4) > 0 {
+			p.setFault(kind(), rng.IntN(7), true)
+		}
+		out = append(out, p)
+	}
+	return out
 }
 
 func mkIns(k string, v []byte) hop {
@@ -653,6 +726,9 @@ func runHistory(spec *routeSpec, hist []hop, count, keepDB bool) (res routeResul
 		step  int
 		curOp = "open"
 		model = lab.NewModel()
+		// failedSince lists the operations ("insert/db", ...) that returned an injected fault
+		// since the last commit whose root was verified.
+		failedSince []string
 	)
 	cnt := func(name string, n int64) {
 		if count {
@@ -666,6 +742,9 @@ func runHistory(spec *routeSpec, hist []hop, count, keepDB bool) (res routeResul
 	defer func() {
 		if p := recover(); p != nil {
 			raw := "panic/" + curOp + "/" + tag
+			if len(failedSince) > 0 {
+				raw = "c02/panic-after-failed-op/" + failedSince[0] + "/in-" + curOp
+			}
 			sig := raw
 			if family != "" {
 				sig = family + "panic"
@@ -692,9 +771,14 @@ func runHistory(spec *routeSpec, hist []hop, count, keepDB bool) (res routeResul
 	}()
 	fail := func(op string, err error) *failure {
 		raw := "c02/route-error/" + op + "/" + tag + "/" + errClass(err)
+		if len(failedSince) > 0 {
+			raw = "c02/error-after-failed-op/" + failedSince[0] + "/in-" + op + "/" + errClass(err)
+		}
 		sig := raw
 		if family != "" {
 			sig = family + "error"
+		} else if len(failedSince) > 0 {
+			// keep raw
 		} else if spec.Backend == lab.BackendNop && errors.Is(err, dbApi.ErrNodeNotFound) {
 			sig = "c02/nop-db-lost-node/" + classifyLostNode(hist[:step+1])
 		}
@@ -719,16 +803,178 @@ func runHistory(spec *routeSpec, hist []hop, count, keepDB bool) (res routeResul
 	version := spec.StartVer
 	first := true
 
+	// compareContents iterates the whole tree and compares it with the model.
+	compareContents := func(why string) *failure {
+		it := tree.NewIterator(bg)
+		defer it.Close()
+		keys := model.Keys()
+		idx := 0
+		for it.Rewind(); ; it.Next() {
+			if e := it.Err(); e != nil {
+				return fail("iterate", e)
+			}
+			want := "<end>"
+			if idx < len(keys) {
+				want = lab.Hex([]byte(keys[idx])) + "=" + lab.Hex(model.Get([]byte(keys[idx])))
+			}
+			got := "<end>"
+			if it.Valid() {
+				got = lab.Hex(it.Key()) + "=" + lab.Hex(it.Value())
+			}
+			if got != want {
+				sig := "c02/failed-op-changed-contents/" + why
+				return &failure{Sig: sig, Raw: sig, Coarse: "wrong-contents", Step: step, At: lab.HexPairs(model),
+					What:   fmt.Sprintf("route %s step %d: %s returned the injected fault but changed the tree: iteration position %d is %s, model (unchanged contents) says %s", spec.Name, step, why, idx, got, want),
+					Detail: "an operation that returned an error must leave the tree as it was"}
+			}
+			if !it.Valid() {
+				return nil
+			}
+			idx++
+		}
+	}
+	// tryFaulted attempts an operation under the fault of h. done = the operation succeeded (the
+	// fault was not reached); failed = it returned the injected fault (the caller retries).
+	tryFaulted := func(h *hop, opName string, do func(ctx context.Context) error) (done, failed bool, g *failure) {
+		if h.fk == "" || (h.fk == "db" && cdb == nil) {
+			return false, false, nil
+		}
+		ctx := context.Context(bg)
+		if h.fk == "db" {
+			cdb.FailGetNode(h.fat)
+		} else {
+			ctx = lab.NewCountdownCtx(bg, h.fat)
+		}
+		cnt("fault/armed/"+h.fk, 1)
+		ferr := do(ctx)
+		if cdb != nil {
+			cdb.Disarm()
+		}
+		if ferr == nil {
+			cnt("fault/not_reached_op_succeeded", 1)
+			return true, false, nil
+		}
+		if !lab.IsInjected(ferr) {
+			return false, false, fail(opName, ferr)
+		}
+		why := opName + "/" + h.fk
+		cnt("fault/failed_ops/"+why, 1)
+		failedSince = append(failedSince, why)
+		if h.Check {
+			cnt("fault/contents_compared_after_failure", 1)
+			if g := compareContents(why); g != nil {
+				return false, true, g
+			}
+		}
+		return false, true, nil
+	}
+
 	for step = 0; step < len(hist); step++ {
 		h := &hist[step]
 		switch h.Op {
 		case "ins":
 			curOp = "insert"
-			if err = tree.Insert(bg, h.k, h.v); err != nil {
-				return res, fail("insert", err)
+			done, failed, g := tryFaulted(h, "insert", func(ctx context.Context) error { return tree.Insert(ctx, h.k, h.v) })
+			if g != nil {
+				return res, g
+			}
+			if !done {
+				if err = tree.Insert(bg, h.k, h.v); err != nil {
+					return res, fail("insert", err)
+				}
+				if failed {
+					cnt("fault/retried_ok/insert", 1)
+				}
 			}
 			model.Insert(h.k, h.v)
 			cnt("op/insert", 1)
+		case "get":
+			curOp = "get"
+			var got []byte
+			done, failed, g := tryFaulted(h, "get", func(ctx context.Context) (e error) { got, e = tree.Get(ctx, h.k); return e })
+			if g != nil {
+				return res, g
+			}
+			if !done {
+				if got, err = tree.Get(bg, h.k); err != nil {
+					return res, fail("get", err)
+				}
+				if failed {
+					cnt("fault/retried_ok/get", 1)
+				}
+			}
+			cnt("op/get", 1)
+			if want := model.Get(h.k); (got == nil) != (want == nil) || !bytes.Equal(got, want) {
+				sig := "c02/get-mismatch/" + tag
+				if len(failedSince) > 0 {
+					sig = "c02/get-after-failed-op/" + failedSince[0]
+				}
+				return res, &failure{Sig: sig, Raw: sig, Coarse: "wrong-contents", Step: step, At: lab.HexPairs(model),
+					What: fmt.Sprintf("route %s step %d: Get(%x) = %x (nil=%v), model says %x (nil=%v)", spec.Name, step, h.k, got, got == nil, want, want == nil)}
+			}
+		case "iter":
+			curOp = "iterate"
+			why := "iterate/db"
+			it := tree.NewIterator(bg)
+			armed := h.fk == "db" && cdb != nil
+			if armed {
+				cdb.FailGetNode(h.fat)
+				cnt("fault/armed/db", 1)
+			}
+			keys := model.Keys()
+			idx := model.From(h.k)
+			var g *failure
+			injected := false
+			it.Seek(h.k)
+			for i := 0; ; i++ {
+				if e := it.Err(); e != nil {
+					if armed && lab.IsInjected(e) {
+						injected = true
+					} else {
+						g = fail("iterate", e)
+					}
+					break
+				}
+				want, got := "<end>", "<end>"
+				if idx < len(keys) {
+					want = lab.Hex([]byte(keys[idx])) + "=" + lab.Hex(model.Get([]byte(keys[idx])))
+				}
+				if it.Valid() {
+					got = lab.Hex(it.Key()) + "=" + lab.Hex(it.Value())
+				}
+				if got != want {
+					sig := "c02/iter-mismatch/" + tag
+					if len(failedSince) > 0 {
+						sig = "c02/iter-after-failed-op/" + failedSince[0]
+					}
+					g = &failure{Sig: sig, Raw: sig, Coarse: "wrong-contents", Step: step, At: lab.HexPairs(model),
+						What: fmt.Sprintf("route %s step %d: iterator position %d after Seek(%x) is %s, model says %s", spec.Name, step, i, h.k, got, want)}
+					break
+				}
+				if !it.Valid() || i >= h.N {
+					break
+				}
+				it.Next()
+				idx++
+			}
+			it.Close()
+			if armed {
+				cdb.Disarm()
+			}
+			if g != nil {
+				return res, g
+			}
+			cnt("op/iterate", 1)
+			if injected {
+				cnt("fault/failed_ops/"+why, 1)
+				failedSince = append(failedSince, why)
+				if h.Check {
+					cnt("fault/contents_compared_after_failure", 1)
+					if g := compareContents(why); g != nil {
+						return res, g
+					}
+				}
+			}
 		case "rem":
 			curOp = "remove"
 			if count {
@@ -744,8 +990,17 @@ func runHistory(spec *routeSpec, hist []hop, count, keepDB bool) (res routeResul
 					cnt("op/remove_absent", 1)
 				}
 			}
-			if err = tree.Remove(bg, h.k); err != nil {
-				return res, fail("remove", err)
+			done, failed, g := tryFaulted(h, "remove", func(ctx context.Context) error { return tree.Remove(ctx, h.k) })
+			if g != nil {
+				return res, g
+			}
+			if !done {
+				if err = tree.Remove(bg, h.k); err != nil {
+					return res, fail("remove", err)
+				}
+				if failed {
+					cnt("fault/retried_ok/remove", 1)
+				}
 			}
 			model.Remove(h.k)
 			cnt("op/remove", 1)
@@ -768,15 +1023,25 @@ func runHistory(spec *routeSpec, hist []hop, count, keepDB bool) (res routeResul
 			want := hash.Hash(lab.RefRoot(model.Map()))
 			if !root.Equal(&want) {
 				raw := "c02/refhash-mismatch/" + tag + suffix(model)
+				extra := ""
+				if len(failedSince) > 0 {
+					// The first commit after an operation that returned an injected fault and was retried.
+					raw = "c02/root-after-failed-op/" + failedSince[0]
+					extra = fmt.Sprintf(" (operations that returned an injected fault since the last verified commit: %v)", failedSince)
+				}
 				sig := raw
 				if family != "" {
 					sig = family + "wrong-root"
 				}
 				return res, &failure{Sig: sig, Raw: raw, Coarse: "wrong-root",
-					What: fmt.Sprintf("route %s step %d: commit root %s != reference %s for %d keys", spec.Name, step, root, want, model.Len()),
+					What: fmt.Sprintf("route %s step %d: commit root %s != reference %s for %d keys%s", spec.Name, step, root, want, model.Len(), extra),
 					Step: step, RootA: root.String(), RootB: want.String(), At: lab.HexPairs(model),
 					Detail: "root returned by Commit (root_a) differs from the reference root of the contents at this commit (root_b)"}
 			}
+			if len(failedSince) > 0 {
+				cnt("fault/commits_verified_after_failed_ops", 1)
+			}
+			failedSince = nil
 			if ndb != nil && spec.Finalize {
 				curOp = "finalize"
 				if err = ndb.Finalize([]node.Root{lab.Root(version, root)}); err != nil {
@@ -964,6 +1229,7 @@ func report(caseIdx int, set *lab.Model, ref hash.Hash, spec *routeSpec, f *fail
 	// longer value, after which the cache evicts everything) is always shrunk; if the trigger
 	// survives in the minimal history the failure is filed under its own family.
 	underflowCandidate := spec.cap.class == "default" && spec.Backend != lab.BackendNop && f.Coarse != "" &&
+		f.Coarse != "wrong-contents" && !strings.Contains(f.Sig, "failed-op") &&
 		strings.HasPrefix(classifyLostNode(spec.History), "after-overwrite")
 	entered := enterReport(sig, underflowCandidate)
 	defer leaveReport(sig, entered)
